@@ -31,7 +31,11 @@ def gen_cases(ctx):
         pol, dlm = r.choice([('simple', ','), ('quoted', ','), ('quoted_rfc', ';'), ('simple', '|')])
         if 'group by' in q or 'distinct' in q:
             A = [[c if not isinstance(c, list) else 'l' for c in row] for row in A]     # list cells are not hashable keys
-        out.append({'q': q, 'qjs': qjs, 'A': A, 'B': B, 'pol': pol, 'dlm': dlm, 'part': 'csvwriter_sources'})
+        names = None
+        if r.random() < 0.5 and ' join ' not in q:
+            # the caller's column-name list (with names the writer has to quote / normalise): also a source, also left alone
+            names = r.choice([['n1', 'n2'], ['a,b', 'c'], ['x;y', 'q"r'], ['p|q', 'r']])
+        out.append({'q': q, 'qjs': qjs, 'A': A, 'B': B, 'names': names, 'pol': pol, 'dlm': dlm, 'part': 'csvwriter_sources'})
     return out
 
 
